@@ -128,30 +128,32 @@ impl FileReader for LSPFileReader {
         // if there is an parent_file, find its path and use that as the parent
         let fulluri = match parent_file {
             Some(uuid) => {
-                let doc = self.file_uris.get(&uuid).unwrap();
-                let uri = lsp_types::Url::parse(&doc.uri).unwrap();
-                let fileuri = uri.join(path).unwrap();
+                let doc = self
+                    .file_uris
+                    .get(&uuid)
+                    .ok_or(FileReaderError::InternalFileNotFound)?;
+                let uri =
+                    lsp_types::Url::parse(&doc.uri).map_err(|_| FileReaderError::InvalidPath)?;
+                let fileuri = uri.join(path).map_err(|_| FileReaderError::InvalidPath)?;
                 fileuri.to_string()
             }
             // otherwise, this is the full path to the file, denoted by its uri
-            None => lsp_types::Url::parse(path).unwrap().to_string(),
+            None => lsp_types::Url::parse(path)
+                .map_err(|_| FileReaderError::InvalidPath)?
+                .to_string(),
         };
 
-        // find file in values of hashmap
-        let doc = self
+        // find file in values of hashmap (the first one given, should the
+        // editor hand over the same uri twice)
+        let (id, text) = self
             .file_uris
-            .clone()
-            .into_iter()
-            .find(|x| x.1.uri == fulluri);
+            .iter()
+            .filter(|(_, doc)| doc.uri == fulluri)
+            .min_by_key(|(id, _)| **id)
+            .map(|(id, doc)| (*id, doc.text.clone()))
+            .ok_or(FileReaderError::InternalFileNotFound)?;
 
-        // if file not found, return error
-        if doc.is_none() {
-            return Err(FileReaderError::InternalFileNotFound);
-        }
-
-        // if file found, return lexer
-        let doc = doc.unwrap();
-        Ok((doc.0, doc.1.text))
+        Ok((id, text))
     }
 
     fn get_base_file(&self) -> Option<uuid::Uuid> {
